@@ -34,6 +34,11 @@ type Conn struct {
 	CutMenu func(avail []byte) []int
 
 	scanned int // server-side: bytes of transcript already consumed by ReadLine
+
+	// OnFault, if set, is called (inside the failing operation, no scheduling
+	// point) when a Read returns EOF or an error, or a Write returns an error,
+	// while the socket is not locally closed.
+	OnFault func(kind string)
 }
 
 type WriteRec struct {
@@ -101,12 +106,21 @@ func (c *Conn) Read(b []byte) (int, error) {
 	}
 	if c.ReadErrAt > 0 && c.nReads == c.ReadErrAt {
 		s.event(0x402, &c.in, true)
+		if c.OnFault != nil {
+			c.OnFault("read-error")
+		}
 		return 0, ErrInjected
 	}
 	if len(c.inbound) == 0 {
 		s.event(0x403, &c.in, true)
 		if c.readErr != nil {
+			if c.OnFault != nil {
+				c.OnFault("read-error")
+			}
 			return 0, c.readErr
+		}
+		if c.OnFault != nil {
+			c.OnFault("eof")
 		}
 		return 0, io.EOF
 	}
@@ -150,6 +164,9 @@ func (c *Conn) Write(b []byte) (int, error) {
 	}
 	if c.WriteErrAt > 0 && c.nWrites == c.WriteErrAt {
 		s.event(0x412, &c.out, true)
+		if c.OnFault != nil {
+			c.OnFault("write-error")
+		}
 		return 0, ErrInjected
 	}
 	name := ""
